@@ -293,7 +293,11 @@ func (r *Run) applyContract(fr *Frame, st *State, instr ssa.Instruction, ct *Con
 	} else {
 		r.note("extern", "%s", name)
 	}
-	st.trace = append(st.trace, site)
+	if r.inDefer > 0 {
+		st.trace = append(st.trace, "defer:"+site)
+	} else {
+		st.trace = append(st.trace, site)
+	}
 	if modifiesFS && r.ct != nil && fr.depth >= 0 {
 		for _, cl := range r.ct.CrashInv {
 			ce := &Env{r: r, st: st, old: r.entry, fr: nil, vars: r.vars, ctx: site}
